@@ -16,6 +16,16 @@ use vcore::Rng;
 pub type Ft = FieldType;
 pub type Fv = FieldValue;
 
+/// Small mode (Miri costs ~10^4 x): no 4097-element vectors, no long texts / byte strings, no
+/// 24-element arrays. Shapes and classes stay the same.
+static SMALL: std::sync::atomic::AtomicBool = std::sync::atomic::AtomicBool::new(false);
+pub fn set_small(on: bool) {
+    SMALL.store(on, std::sync::atomic::Ordering::Relaxed);
+}
+fn small() -> bool {
+    SMALL.load(std::sync::atomic::Ordering::Relaxed)
+}
+
 pub struct G<'a> {
     pub rng: &'a mut Rng,
     /// set when a boundary numeric / size was drawn
@@ -352,7 +362,7 @@ const TEXTS: &[&str] = &[
 ];
 
 pub fn gen_text(g: &mut G) -> String {
-    match g.rng.below(10) {
+    match if small() { 2 + g.rng.below(8) } else { g.rng.below(10) } {
         0 => {
             g.boundary = true;
             String::new()
@@ -372,7 +382,7 @@ pub fn gen_text(g: &mut G) -> String {
 }
 
 pub fn gen_bytes(g: &mut G) -> Vec<u8> {
-    match g.rng.below(10) {
+    match if small() && g.rng.chance(1, 2) { 7 } else { g.rng.below(10) } {
         0 => {
             g.boundary = true;
             vec![]
@@ -383,7 +393,7 @@ pub fn gen_bytes(g: &mut G) -> Vec<u8> {
         4 => vec![0xc3, 0x28],
         5 => vec![0xff, 0xfe, 0xfd],
         6 => {
-            let n = 200 + g.rng.usize(200);
+            let n = if small() { 30 } else { 200 + g.rng.usize(200) };
             g.rng.bytes(n)
         }
         7 => vec![1, 2, 3],
@@ -447,7 +457,13 @@ pub fn gen_vector(g: &mut G) -> Vec<bf16> {
             0
         }
         1 => 1,
-        2 => 64,
+        2 => {
+            if small() {
+                9
+            } else {
+                64
+            }
+        }
         _ => 1 + g.rng.usize(8),
     };
     (0..n)
@@ -545,7 +561,13 @@ fn gen_len(g: &mut G) -> usize {
             0
         }
         2 | 3 => 1,
-        4 => 24,
+        4 => {
+            if small() {
+                3
+            } else {
+                24
+            }
+        }
         _ => 2 + g.rng.usize(3),
     }
 }
@@ -1192,7 +1214,9 @@ fn grey_sites(ft: &Ft, v: &Fv, path: &mut Vec<Step>, out: &mut Vec<Site>) {
         (Ft::Vector, Fv::Vector(_)) => {
             push("bits_array_for_vector", path);
             push("vector_nan_bits", path);
-            push("vector_len_4097", path);
+            if !small() {
+                push("vector_len_4097", path);
+            }
         }
         (Ft::Bytes, Fv::Bytes(_)) => push("int_array_for_bytes", path),
         (Ft::Json, Fv::Json(_)) => {
